@@ -664,18 +664,40 @@ func (r *reporter) convertTags(tags map[string]string) []m3thrift.MetricTag {
 	key := cache.TagMapKey(tags)
 
 	mtags, ok := r.tagCache.Get(key)
-	if !ok {
-		mtags = r.resourcePool.getMetricTagSlice()
-		for k, v := range tags {
-			mtags = append(mtags, m3thrift.MetricTag{
-				Name:  r.stringInterner.Intern(k),
-				Value: r.stringInterner.Intern(v),
-			})
-		}
-		mtags = r.tagCache.Set(key, mtags)
+	if ok && tagsMatch(mtags, tags) {
+		return mtags
 	}
 
+	fresh := r.resourcePool.getMetricTagSlice()
+	for k, v := range tags {
+		fresh = append(fresh, m3thrift.MetricTag{
+			Name:  r.stringInterner.Intern(k),
+			Value: r.stringInterner.Intern(v),
+		})
+	}
+	if ok {
+		// n.b. The key is only a hash of the tags: a different tag set owns this
+		//      cache entry, so serve these tags uncached.
+		return fresh
+	}
+
+	if mtags = r.tagCache.Set(key, fresh); !tagsMatch(mtags, tags) {
+		return fresh
+	}
 	return mtags
+}
+
+// tagsMatch reports whether mtags holds exactly the tags of the map.
+func tagsMatch(mtags []m3thrift.MetricTag, tags map[string]string) bool {
+	if len(mtags) != len(tags) {
+		return false
+	}
+	for _, t := range mtags {
+		if v, ok := tags[t.Name]; !ok || v != t.Value {
+			return false
+		}
+	}
+	return true
 }
 
 func (r *reporter) reportInternalMetrics() {
